@@ -194,6 +194,39 @@ def _tables_of(mapper, name, signal_scale, want_split):
     return t
 
 
+def _mapper_signal_tables(mapper, signal_scale):
+    """the arguments `AbstractMapper.pixel_signals_from` hands to `adaptive_pixel_signals_from`"""
+    ad = mapper.adapt_data
+    return {
+        "pixels": int(mapper.pixels),
+        "pixel_weights": qmat(np.asarray(mapper.pix_weights_for_sub_slim_index)),
+        "pix_indexes": [[int(v) for v in r] for r in np.asarray(mapper.pix_indexes_for_sub_slim_index)],
+        "pix_sizes": [int(v) for v in np.asarray(mapper.pix_sizes_for_sub_slim_index)],
+        "slim_for_sub": [int(v) for v in np.asarray(mapper.over_sampler.slim_for_sub_slim)],
+        "adapt_data": qlist(np.asarray(ad.array if hasattr(ad, "array") else ad)),
+        "signal_scale": q(Fraction(signal_scale)),
+    }
+
+
+def _closed_obj(mapper, case, name, tables, signal_scale):
+    """the linear object with every table the model can compute itself left out: a rectangular mesh is
+    given by its shape only (the model runs its own `rectangular_neighbors_from`), the pixel signals by
+    the mapper tables + adapt image (the model runs its own `adaptive_pixel_signals_from`)"""
+    rect = case["source"] == "rect"
+    if not rect and name not in SIGNAL_SCHEMES:
+        return None
+    c = {"params": tables["params"], "points": tables["points"]}
+    if rect:
+        c["mesh_shape"] = [int(v) for v in case["mesh_shape"]]
+    else:
+        c["neighbors"], c["sizes"] = tables["neighbors"], tables["sizes"]
+    if name in SIGNAL_SCHEMES:
+        c["mapper"] = _mapper_signal_tables(mapper, signal_scale)
+    if "split" in tables:
+        c["split"] = tables["split"]
+    return c
+
+
 # ------------------------------------------------------------------------------------------------
 # exact linear algebra for the oracle
 # ------------------------------------------------------------------------------------------------
@@ -251,8 +284,8 @@ class C07(PropertyCheck):
         "objects; history cases when at least two different scheme settings occur; distinct = distinct "
         "(scheme, coefficients, tables, history)")
     exhaustive_note = {
-        "quick": "every rectangular mesh shape 3..6 x 3..6 (real Mesh2DRectangular neighbour tables) under each of the 7 non-split schemes",
-        "thorough": "every rectangular mesh shape 3..9 x 3..9 (real Mesh2DRectangular neighbour tables) under each of the 7 non-split schemes",
+        "quick": "every rectangular mesh shape 3..6 x 3..6 (real Mesh2DRectangular neighbour tables) under each of the 7 non-split schemes; rectangular_neighbors_from / Mesh2DRectangular.neighbors on every shape 2..10 x 2..10",
+        "thorough": "every rectangular mesh shape 3..9 x 3..9 (real Mesh2DRectangular neighbour tables) under each of the 7 non-split schemes; rectangular_neighbors_from / Mesh2DRectangular.neighbors on every shape 2..18 x 2..18",
     }
     modelled_functions = [
         "autoarray/inversion/regularization/regularization_util.py:zeroth_regularization_matrix_from",
@@ -324,17 +357,22 @@ class C07(PropertyCheck):
     trusted_extra = [
         "numpy.linalg.inv (contract C·inv(C) = I; checked per case against an exact rational inverse / residual)",
         "numpy/libm sqrt, exp of the kernel schemes (parameters of the model; driver uses Float.sqrt/exp, 1e-9)",
-        "positive-definiteness of the exponential kernel matrix itself is NOT proved (the Gaussian one is, over the "
-        "reals): tested per case by exact rational LDL^T (n <= 14) or float Cholesky",
+        "positive-definiteness of both kernel matrices is proved over the reals (exact arithmetic); additionally tested "
+        "per case by exact rational LDL^T (n <= 14) or float Cholesky of the implementation's covariance matrix",
         "scipy.linalg.block_diag, numpy.delete (modelled by Spec.blockDiag / Spec.deleteIdx; compared per case)",
-        "scipy.spatial.Delaunay.vertex_neighbor_vertices / Mesh2DRectangular.neighbors supply the neighbour tables "
-        "(inputs of the model; their symmetry is checked per case by the oracle)",
-        "`** signal_scale` in adaptive_pixel_signals_from is modelled for integer scales only (exact); "
-        "for other scales the signals reported by the mapper are model inputs",
+        "scipy.spatial.Delaunay.vertex_neighbor_vertices supplies the Delaunay neighbour tables (inputs of the model; "
+        "their symmetry is checked per case by the oracle); rectangular tables are the model's own "
+        "(Impl.rectNeighbors, proved to be the 4-connectivity) and compared with the code on every shape",
+        "`** signal_scale` in adaptive_pixel_signals_from: exact rational power for natural-number scales, numpy's "
+        "double-precision power (Float.pow on the exactly computed normalised mean) otherwise; the theorems need "
+        "only that it maps [0,1] into [0,1] and fixes 1 (discharged for Real.rpow with exponent >= 0)",
     ]
     assumptions = [
         "theorems are over an exact ordered field; IEEE rounding is outside them (tolerances 1e-12 rational schemes, 1e-9 float)",
-        "PD theorems for Constant/ConstantZeroth need a symmetric in-range neighbour table (true of every generated mesh; checked)",
+        "PD theorems for Constant/ConstantZeroth need a symmetric in-range neighbour table: proved for every rectangular "
+        "mesh (C07.rect_*), a checked hypothesis for Delaunay meshes (Qhull's contract)",
+        "the content theorem of adaptive_pixel_signals_from needs well-formed mapper tables (valid indices, a triangle's "
+        "vertices distinct, as many weights as vertices); its range theorem needs none",
         "split-cross theorems need well-formed cross-point tables (4 rows per pixel, rows non-empty and not full) with "
         "non-negative, in-range, pairwise distinct pixel indices per row (true of Delaunay simplices; checked per case)",
         "the model of LinearObj.regularization_matrix is a pure function of the object's current scheme; histories "
@@ -487,6 +525,12 @@ class C07(PropertyCheck):
     # ------------------------------------------------------------------ generation
     def generate(self, tier, rng):
         quick = tier == "quick"
+        # 0. rectangular_neighbors_from / Mesh2DRectangular.neighbors on every shape (exhaustive, seed-independent);
+        #    shapes with a side of 2 go through the util function only (aa.mesh.Rectangular wants >= 3)
+        top = 10 if quick else 18
+        for mh in range(2, top + 1):
+            for mw in range(2, top + 1):
+                yield {"tag": "rect_neighbors", "kind": "rect_neighbors", "shape": [mh, mw]}
         # 1. every rectangular mesh shape x the 7 schemes a rectangular mapper supports (exhaustive in shape)
         hi = 6 if quick else 9
         for mh in range(3, hi + 1):
@@ -644,6 +688,8 @@ class C07(PropertyCheck):
             return self._impl_util(aa, case)
         if kind == "signals":
             return self._impl_signals(aa, case)
+        if kind == "rect_neighbors":
+            return self._impl_rect_neighbors(aa, case)
         if kind == "history":
             return self._impl_history(aa, case)
         return self._impl_inversion(aa, case)
@@ -663,6 +709,7 @@ class C07(PropertyCheck):
 
         name = case["scheme"]
         want_split = name in SPLIT_SCHEMES
+        closed = None
         if case["source"] == "mock":
             tables = {k: v for k, v in case["mock"].items()}
             mapper_f = lambda: _mock_mapper(aa, case["mock"])
@@ -670,6 +717,9 @@ class C07(PropertyCheck):
             try:
                 mapper = _real_mapper(aa, case)
                 tables = _tables_of(mapper, name, case.get("signal_scale") or "1", want_split)
+                closed = None
+                if name not in KERNEL_SCHEMES:
+                    closed = _closed_obj(mapper, case, name, tables, case.get("signal_scale") or "1")
             except Exception as e:  # Qhull degenerate input etc.: not a regularization matter
                 if "Qhull" in type(e).__name__ or "qhull" in str(e).lower():
                     raise Skip("qhull")
@@ -697,6 +747,8 @@ class C07(PropertyCheck):
                     "inputs": {"tables": tables, "args": args}}
         obs = {"shape": list(H.shape), "weights": qlist(np.asarray(w)), "matrix": qmat(H),
                "inputs": {"tables": tables, "args": args}}
+        if closed is not None:
+            obs["inputs"]["closed"] = closed
         if name in KERNEL_SCHEMES:
             from autoarray.inversion.regularization import gaussian_kernel, exponential_kernel
 
@@ -753,6 +805,23 @@ class C07(PropertyCheck):
         else:
             H = ru.brightness_zeroth_regularization_matrix_from(regularization_weights=wts)
         return {"matrix": qmat(H)}
+
+    def _impl_rect_neighbors(self, aa, case):
+        from autoarray.inversion.pixelization.mesh import mesh_util
+
+        h, w = case["shape"]
+        nb, sz = mesh_util.rectangular_neighbors_from(shape_native=(h, w))
+        obs = {"neighbors": [[int(v) for v in r] for r in np.asarray(nb)], "sizes": [int(v) for v in np.asarray(sz)],
+               "inputs": {}}
+        if h >= 3 and w >= 3:
+            # the same table through the public mesh class (what the regularization schemes actually read)
+            grid = aa.Grid2D.uniform(shape_native=(3, 3), pixel_scales=1.0)
+            mesh = aa.Mesh2DRectangular.overlay_grid(grid=grid, shape_native=(h, w))
+            n = mesh.neighbors
+            obs["mesh"] = {"neighbors": [[int(v) for v in r] for r in np.asarray(n)],
+                           "sizes": [int(v) for v in np.asarray(n.sizes)]}
+            obs["mesh_pixels"] = int(mesh.pixels)
+        return obs
 
     def _impl_signals(self, aa, case):
         mapper = _real_mapper(aa, case)
@@ -887,8 +956,15 @@ class C07(PropertyCheck):
                     reqs.append({"op": "c07.scheme", "num": "float", "scheme": name, "args": inp["args"],
                                  "ridge": q(RIDGE), "ridge2": q(RIDGE2), "obj": {"params": t["params"], "points": t["points"]}})
                 return reqs
-            return [{"op": "c07.scheme", "num": "rat", "scheme": name, "args": inp["args"],
+            reqs = [{"op": "c07.scheme", "num": "rat", "scheme": name, "args": inp["args"],
                      "ridge": q(RIDGE), "ridge2": q(RIDGE2), "obj": t}]
+            if inp.get("closed") is not None:
+                # the same scheme from the mesh shape / mapper tables alone: the model computes the
+                # neighbour table (rectangular_neighbors_from) and the pixel signals itself
+                reqs.append({**reqs[0], "obj": inp["closed"]})
+            return reqs
+        if kind == "rect_neighbors":
+            return [{"op": "c07.rect_neighbors", "shape": case["shape"]}]
         if kind == "util":
             fn = case["fn"]
             r = {"op": "c07.util", "fn": fn, "ridge": q(RIDGE), "ridge2": q(RIDGE2)}
@@ -905,9 +981,8 @@ class C07(PropertyCheck):
                       "coefficient_zeroth": case["coefficient_zeroth"], "weights": case["weights"], "pixels": case["n"]})
             return [r]
         if kind == "signals":
-            if Fraction(case["signal_scale"]).denominator != 1:
-                return []  # `** signal_scale` is modelled for integer scales only; the oracle covers the rest
-            return [{"op": "c07.util", "fn": "pixel_signals", "signal_scale": int(Fraction(case["signal_scale"])),
+            # integer scales: exact rational power; other scales: the model's `pow` is the double-precision power
+            return [{"op": "c07.util", "fn": "pixel_signals", "signal_scale": q(Fraction(case["signal_scale"])),
                      **obs["inputs"]}]
         if kind == "history":
             reqs = []
@@ -948,7 +1023,20 @@ class C07(PropertyCheck):
             if "err" in r:
                 return {"err": r["err"]}
             M = r["ok"]["matrix"]
-            return {"shape": [len(M), len(M[0]) if M else 0], "weights": r["ok"]["weights"], "matrix": M}
+            out = {"shape": [len(M), len(M[0]) if M else 0], "weights": r["ok"]["weights"], "matrix": M}
+            if len(responses) > 1:
+                r2 = responses[1]
+                if "err" in r2:
+                    return {"err": r2["err"]}
+                M2 = r2["ok"]["matrix"]
+                out["closed"] = {"shape": [len(M2), len(M2[0]) if M2 else 0], "weights": r2["ok"]["weights"],
+                                 "matrix": M2}
+            return out
+        if kind == "rect_neighbors":
+            r = responses[0]
+            if "err" in r:
+                return {"err": r["err"]}
+            return {"neighbors": r["ok"]["neighbors"], "sizes": r["ok"]["sizes"]}
         if kind == "util":
             if case["fn"] == "pixel_splitted":
                 if "err" in responses[0]:
@@ -960,7 +1048,7 @@ class C07(PropertyCheck):
             return r["ok"] if case["fn"] == "reg_split_from" else {"matrix": r["ok"]}
         if kind == "signals":
             r = responses[0]
-            return {"signals": r["ok"]} if "ok" in r else {"err": r["err"]}
+            return {"signals": r["ok"]["signals"]} if "ok" in r else {"err": r["err"]}
         if kind == "history":
             steps = []
             for k in range(0, len(responses), 2):
@@ -998,7 +1086,17 @@ class C07(PropertyCheck):
             a = {k: impl[k] for k in ("shape", "weights", "matrix")}
             if name in SIGNAL_SCHEMES and case["source"] != "mock":
                 tol = Fraction(1, 10 ** 10)
-            return sub(a, model, tol)
+            d = sub(a, {k: model[k] for k in ("shape", "weights", "matrix")}, tol)
+            if d or "closed" not in model:
+                return d
+            d = sub(a, model["closed"], tol)
+            return ("closed model (own neighbour table / own pixel signals): " + d) if d else None
+        if kind == "rect_neighbors":
+            d = sub({"neighbors": impl["neighbors"], "sizes": impl["sizes"]}, model, 0)
+            if d or "mesh" not in impl:
+                return d
+            d = sub(impl["mesh"], model, 0)
+            return ("Mesh2DRectangular.neighbors: " + d) if d else None
         if kind == "util":
             if case["fn"] == "reg_split_from":
                 return sub(impl, model, 0)
@@ -1030,6 +1128,8 @@ class C07(PropertyCheck):
             return self._oracle_util(case, obs)
         if kind == "signals":
             return self._oracle_signals(case, obs)
+        if kind == "rect_neighbors":
+            return self._oracle_rect_neighbors(case, obs)
         if kind == "history":
             return self._oracle_history(case, obs)
         return self._oracle_inversion(case, obs)
@@ -1128,6 +1228,12 @@ class C07(PropertyCheck):
                 e = (args[0] * s[k] + args[1] * (1 - s[k])) ** 2
                 if abs(w[k] - e) > Fraction(1, 10 ** 12) * max(1, abs(e)):
                     return False, f"{name}: weight {k} = {float(w[k])!r}, expected (inner*s+outer*(1-s))^2 = {float(e)!r}"
+            if real_mesh and args[0] > 0 and args[1] > 0:
+                # C07.adaptive_brightness_weights_pos: signals of a real mapper lie in [0, 1]
+                if any(v < 0 or v > 1 for v in s):
+                    return False, f"{name}: a pixel signal of the mapper lies outside [0, 1]"
+                if any(v <= 0 for v in w):
+                    return False, f"{name}: a reported regularization weight is not positive"
         elif name == "BrightnessZeroth":
             s = [Fraction(v) for v in t["signals"]]
             for k in range(n):
@@ -1289,6 +1395,26 @@ class C07(PropertyCheck):
             return self._check_pd(H, n, fn == "weighted", fn)
         return True, ""
 
+    def _oracle_rect_neighbors(self, case, obs):
+        """the table is the 4-connectivity of the H x W pixel grid: row k lists, in ascending order, the pixels
+        above / left / right / below pixel k = y*W + x, padded with -1; sizes = their number (hence in range,
+        symmetric, without self / repeated neighbours)"""
+        h, w = case["shape"]
+        views = [("rectangular_neighbors_from", obs)] + ([("Mesh2DRectangular.neighbors", obs["mesh"])] if "mesh" in obs else [])
+        if "mesh_pixels" in obs and obs["mesh_pixels"] != h * w:
+            return False, f"mesh.pixels = {obs['mesh_pixels']} for shape {h} x {w}"
+        for what, o in views:
+            if len(o["neighbors"]) != h * w or len(o["sizes"]) != h * w:
+                return False, f"{what}: {len(o['neighbors'])} rows / {len(o['sizes'])} sizes for {h * w} pixels"
+            for k in range(h * w):
+                y, x = divmod(k, w)
+                e = ([k - w] if y > 0 else []) + ([k - 1] if x > 0 else []) + ([k + 1] if x + 1 < w else []) \
+                    + ([k + w] if y + 1 < h else [])
+                if o["sizes"][k] != len(e) or list(o["neighbors"][k]) != e + [-1] * (4 - len(e)):
+                    return False, (f"{what}: pixel {k} = ({y},{x}) of a {h} x {w} mesh has row {o['neighbors'][k]} "
+                                   f"size {o['sizes'][k]}, expected {e} (its 4-neighbours)")
+        return True, ""
+
     def _oracle_signals(self, case, obs):
         inp = obs["inputs"]
         n = inp["pixels"]
@@ -1311,9 +1437,17 @@ class C07(PropertyCheck):
         else:
             e = [Fraction(float(s / mx) ** float(sc)) for s in sig]
         got = [Fraction(v) for v in obs["signals"]]
+        if len(got) != n:
+            return False, f"{len(got)} pixel signals for {n} pixels"
         for i in range(n):
             if abs(got[i] - e[i]) > Fraction(1, 10 ** 10):
                 return False, f"pixel signal {i}: {float(got[i])!r}, expected {float(e[i])!r}"
+        # range facts (C07.pixel_signals_in_unit_interval): non-negative image and weights, some positive mean
+        if all(v >= 0 for v in ad) and all(Fraction(v) >= 0 for r in inp["pixel_weights"] for v in r) and sc >= 0:
+            if any(v < 0 or v > 1 for v in got):
+                return False, f"a pixel signal lies outside [0, 1]: {[float(v) for v in got]}"
+            if max(got) != 1:
+                return False, f"the brightest pixel has signal {float(max(got))!r}, not 1"
         return True, ""
 
     def _oracle_history(self, case, obs):
@@ -1429,13 +1563,26 @@ class C07(PropertyCheck):
     def theorems_for(self, case):
         kind = case["kind"]
         if kind == "inversion":
-            return ["C07.linear_obj_without_scheme_zero_block", "C07.block_diag_entry", "C07.block_diag_quad"]
+            return ["C07.linear_obj_without_scheme_zero_block", "C07.block_diag_entry", "C07.block_diag_quad",
+                    "C07.no_regularization_index_list_spec", "C07.reduced_is_deletion", "C07.reduced_eq_block_diag",
+                    "C07.reduced_symm_posdef", "C07.block_diag_posdef"]
         if kind == "signals":
-            return ["C07.adaptive_scheme_uses_reported_weights"]
+            return ["C07.adaptive_scheme_uses_reported_weights", "C07.pixel_signals_accumulate_spec",
+                    "C07.pixel_signals_spec", "C07.pixel_signals_in_unit_interval", "C07.adaptive_weights_spec",
+                    "C07.adaptive_brightness_weights_pos"]
+        if kind == "rect_neighbors":
+            return ["C07.rect_neighbors_wellformed", "C07.rect_pairs_are_adjacent_pixels", "C07.rect_constant_spec",
+                    "C07.rect_constant_zeroth_spec", "C07.rect_weighted_spec", "C07.rect_adaptive_brightness_spec"]
         if kind == "history":
             return ["C07.linear_obj_without_scheme_zero_block", "C07.block_diag_entry", "C07.constant_quad_pairs",
                     "C07.weighted_quad_pairs"]
         name = case.get("scheme") or case.get("fn")
+        if kind == "scheme" and case.get("source") == "rect":
+            extra = {"Constant": ["C07.rect_constant_spec"], "ConstantZeroth": ["C07.rect_constant_zeroth_spec"],
+                     "AdaptiveBrightness": ["C07.rect_weighted_spec", "C07.rect_adaptive_brightness_spec",
+                                            "C07.pixel_signals_spec", "C07.adaptive_brightness_weights_pos"]}
+            if name in extra:
+                return extra[name] + ["C07.rect_neighbors_wellformed", "C07.rect_pairs_are_adjacent_pixels"]
         table = {
             "Constant": ["C07.constant_quad", "C07.constant_quad_pairs", "C07.constant_symm", "C07.constant_posdef"],
             "constant": ["C07.constant_quad"],
@@ -1452,7 +1599,8 @@ class C07(PropertyCheck):
             "reg_split_from": ["C07.reg_split_from_rows", "C07.split_scheme_spec"],
             "pixel_splitted": ["C07.split_quad", "C07.split_posdef"],
             "GaussianKernel": ["C07.kernel_cov_entry", "C07.gaussian_kernel_cov_posdef", "C07.gaussian_kernel_reg_posdef"],
-            "ExponentialKernel": ["C07.kernel_cov_symm", "C07.kernel_reg_posdef_partial"],
+            "ExponentialKernel": ["C07.kernel_cov_symm", "C07.exponential_kernel_cov_posdef",
+                                  "C07.exponential_kernel_reg_posdef"],
         }
         return table.get(name, ["C07.*"])
 
